@@ -17,7 +17,7 @@ ap.add_argument('--out', default=C.V + '/domains.json')
 ap.add_argument('--witness', action='store_true')
 ap.add_argument('--merge', action='store_true')
 a = ap.parse_args()
-ctx = C.Ctx('C01', 'quick', a.seed)
+ctx = C.Ctx('C99', 'quick', a.seed)
 ok, out = C.build_harness()
 assert ok, out
 rng = random.Random(a.seed)
